@@ -1,3 +1,4 @@
+use crate::sdk::std::flowcontrol::function;
 use duckscript::parser;
 use duckscript::runner;
 use duckscript::types::command::{
@@ -182,6 +183,7 @@ pub(crate) fn eval_with_instructions(
     } else {
         // the invocation acts as an additional last line of the script
         let call_line = instructions.len();
+        let call_stack_depth = function::get_call_stack_depth(state);
         let command_result = run_values(
             arguments,
             instructions,
@@ -209,7 +211,12 @@ pub(crate) fn eval_with_instructions(
                 );
 
                 match flow_result {
-                    Some(result) => result,
+                    Some(result) => {
+                        // the flow ended without returning from the function(s) it was running
+                        function::unwind_call_stack(state, variables, call_stack_depth);
+
+                        result
+                    }
                     None => CommandResult::Continue(flow_output),
                 }
             }
